@@ -58,6 +58,9 @@ type world struct {
 	srv    *httptest.Server
 	self   string
 	nrun   int
+	// every process ever started, each in its own process group: close() kills whatever is
+	// still alive (a held or stalled builder when the driver bails out), so no child survives
+	children []*exec.Cmd
 }
 
 func etagOf(b []byte) string {
@@ -152,6 +155,11 @@ func newWorld(nrev int) (*world, error) {
 
 func (w *world) close() {
 	w.mu.Lock()
+	for _, c := range w.children {
+		if c.Process != nil && c.ProcessState == nil {
+			_ = syscall.Kill(-c.Process.Pid, syscall.SIGKILL)
+		}
+	}
 	for _, s := range w.stalls {
 		select {
 		case <-s.release:
@@ -292,6 +300,10 @@ func (w *world) command(s runSpec) (*exec.Cmd, string) {
 	}
 	cmd.Env = env
 	cmd.Stdout, cmd.Stderr = io.Discard, io.Discard
+	cmd.SysProcAttr = &syscall.SysProcAttr{Setpgid: true}
+	w.mu.Lock()
+	w.children = append(w.children, cmd)
+	w.mu.Unlock()
 	return cmd, resf
 }
 
